@@ -31,7 +31,7 @@ ANCHORS = [
     "acnportal.acnsim.interface:Interface._infrastructure_info",
     "acnportal.algorithms.utils:infrastructure_constraints_feasible",
 ]
-REQUIRED = ["schedules_in_which_every_station_discharges", "history_op:update_with_a_current_derived_from_the_registered_object", "schedules_whose_currents_cancel_across_stations", "schedules_of_over_1000_periods", "decisive_column_positions_judged", "integer_row_first_in_mapping", "explicit_tolerances_differ_from_network", "explicit_zero_tolerance_on_tolerant_network", "phasor_judged", "linear_judged", "near_boundary_judged", "constraint_free_sim_runs", "history_rejudged",
+REQUIRED = ["schedules_given_as_a_mapping_other_than_dict", "schedules_in_which_every_station_discharges", "history_op:update_with_a_current_derived_from_the_registered_object", "schedules_whose_currents_cancel_across_stations", "schedules_of_over_1000_periods", "decisive_column_positions_judged", "integer_row_first_in_mapping", "explicit_tolerances_differ_from_network", "explicit_zero_tolerance_on_tolerant_network", "phasor_judged", "linear_judged", "near_boundary_judged", "constraint_free_sim_runs", "history_rejudged",
             "history_op:remove_not_last", "history_op:update", "history_op:update_rename", "history_op:add",
             "regime:phasor-accept", "regime:phasor-reject", "regime:linear-accept", "regime:linear-reject",
             "regime:T>1", "regime:mixed-sign"]
@@ -291,6 +291,41 @@ def _judge(nd, S, obs, ts=1e-7, omit=False, oseed=0, use_defaults=False, tag=Non
     if typed and isinstance(typed[0][1], (list, np.ndarray)) and len(typed) > 1 and all(isinstance(x, (int, np.integer)) for x in typed[0][1]):
         obs.ev("integer_row_first_in_mapping")
     sched = dict(typed)
+    if sched and rng.random() < 0.15:
+        # the mapping itself need not be a plain dict: a read-only proxy, a ChainMap of two partial tables, a UserDict, an
+        # OrderedDict, a defaultdict, a Mapping of the caller's own
+        import collections
+        import collections.abc
+        import types
+        kind = rng.choice(["proxy", "chain", "userdict", "ordered", "defaultdict", "own"])
+        if kind == "proxy":
+            sched = types.MappingProxyType(dict(sched))
+        elif kind == "chain":
+            h_ = len(typed) // 2
+            sched = collections.ChainMap(dict(typed[:h_]), dict(typed[h_:]))
+        elif kind == "userdict":
+            sched = collections.UserDict(sched)
+        elif kind == "ordered":
+            sched = collections.OrderedDict(reversed(typed))
+        elif kind == "defaultdict":
+            dd_ = collections.defaultdict(lambda: [0] * T)
+            dd_.update(sched)
+            sched = dd_
+        else:
+            class Table(collections.abc.Mapping):
+                def __init__(self, d_):
+                    self._d = dict(d_)
+
+                def __getitem__(self, k__):
+                    return self._d[k__]
+
+                def __iter__(self):
+                    return iter(self._d)
+
+                def __len__(self):
+                    return len(self._d)
+            sched = Table(sched)
+        obs.ev("schedules_given_as_a_mapping_other_than_dict")
     info = iface.infrastructure_info()
     mixed = any(any(x < 0 for x in row) and any(x > 0 for x in row) for row in A)
     res = {}
